@@ -54,3 +54,27 @@ def _(c):
         if type(status) is t.EmberStatus
         else True,
     )
+
+
+def _deterministic_result(I, b):
+    """from_ember_status is a function of (family, value): the same argument gives the same result at every
+    call site (its value is constrained by the ensures clauses above)"""
+    import enum
+
+    import z3
+
+    from pyvc.interp import int_term
+    from pyvc.values import SEnum
+
+    status = b["status"]
+    cls = status.cls if isinstance(status, SEnum) else type(status)
+    fams = {t.sl_Status: 0, t.EmberStatus: 1, t.EzspStatus: 2}
+    f = z3.Function("from_ember_status", z3.IntSort(), z3.IntSort(), z3.IntSort())
+    r = f(z3.IntVal(fams.get(cls, 9)), int_term(status))
+    I.ctx.assume(z3.And(r >= 0, r <= 0xFFFFFFFF))
+    return SEnum(t.sl_Status, r)
+
+
+from pyvc.contracts import REGISTRY as _REGT
+
+_REGT.contracts["bellows.types.named.sl_Status.from_ember_status"].returns_fn = _deterministic_result
